@@ -24,6 +24,7 @@ structure Inv (v : Variant) (s : State) : Prop where
   readyFresh : ∀ (k : Nat) (c : Conn) (m : Msg), s.conns[k]? = some c →
     (c.spc = .ready m ∨ c.spc = .atGot m) → k ∉ m.dead
   attemptsFresh : ∀ m k, (m, k) ∈ s.attempts → k ∉ m.dead
+  locked : s.unlockedDial = false
 
 def good (v : Variant) (s : State) (a : Action) : Prop := v = .repaired ∨ timely s a = true
 
@@ -64,7 +65,8 @@ theorem mem_knownList {s : State} {j : Nat} (h : j ∈ knownList s) : knownAt s 
 flight before, inherits the invariant -/
 theorem inv_of_same {v : Variant} {s s' : State} (hi : Inv v s) (hc : s'.conns = s.conns)
     (hf : s'.isClosed = s.isClosed) (ha : s'.attempts = s.attempts)
-    (hm : ∀ m, InFlight s' m → InFlight s m ∨ m.dead = knownList s) : Inv v s' := by
+    (hm : ∀ m, InFlight s' m → InFlight s m ∨ m.dead = knownList s)
+    (hu : s'.unlockedDial = s.unlockedDial := by rfl) : Inv v s' := by
   have hk : ∀ j, knownAt s' j = knownAt s j := by intro j; simp only [knownAt, hc]
   constructor
   · rw [hc, hf]; exact hi.closedKnown
@@ -80,6 +82,7 @@ theorem inv_of_same {v : Variant} {s s' : State} (hi : Inv v s) (hc : s'.conns =
     · exact mem_knownList (h ▸ hj)
   · rw [hc]; exact hi.readyFresh
   · rw [ha]; exact hi.attemptsFresh
+  · rw [hu]; exact hi.locked
 macro "inv_case" h:ident : tactic => `(tactic|
   (simp only [step] at $h:ident
    repeat' (split at $h:ident)
@@ -295,6 +298,7 @@ theorem inv_callReconnect {v cap s s' id} (hi : Inv v s) (h : step v cap s (.cal
           subst hk
           simp at hd
       · exact hi.attemptsFresh
+      · exact hi.locked
     · cases h
       exact inv_of_same hi rfl rfl rfl (fun x hx => Or.inl (inFlight_setCall hf hx))
   · cases h
@@ -377,11 +381,27 @@ theorem inv_sRequeue {v cap s s' k} (hi : Inv v s) (_hg : good v s (.sRequeue k)
 theorem inv_sFailClose {v cap s s' k} (hi : Inv v s) (_hg : good v s (.sFailClose k)) (h : step v cap s (.sFailClose k) = some s') : Inv v s' := by
   inv_case h
 
+theorem inv_callCheckClosed {v cap s s' id} (hi : Inv v s)
+    (h : step v cap s (.callCheckClosed id) = some s') : Inv v s' := by
+  simp only [step] at h
+  split at h
+  · rename_i hu; rw [hi.locked] at hu; cases hu
+  · cases h
+
+theorem inv_callInstall {v cap s s' id} (hi : Inv v s)
+    (h : step v cap s (.callInstall id) = some s') : Inv v s' := by
+  simp only [step] at h
+  split at h
+  · rename_i hu; rw [hi.locked] at hu; cases hu
+  · cases h
+
 /-- the invariant is preserved by every step that is timely (as found) / by every step (repaired) -/
 theorem inv_step {v cap s s' a} (hi : Inv v s) (hg : good v s a) (h : step v cap s a = some s') : Inv v s' := by
   cases a with
   | callBegin id => exact inv_callBegin hi h
   | callReconnect id => exact inv_callReconnect hi h
+  | callCheckClosed id => exact inv_callCheckClosed hi h
+  | callInstall id => exact inv_callInstall hi h
   | markReconnected id => exact inv_markReconnected hi h
   | callEnq id => exact inv_callEnq hi h
   | callFail id => exact inv_callFail hi h
